@@ -349,11 +349,18 @@ int KSI_BlockSigner_closeAndSign(KSI_BlockSigner *signer) {
 
 	KSI_LOG_debug(signer->ctx, "Closing block signer instance.");
 
-	/* Finalize the tree. */
-	res = KSI_TreeBuilder_close(signer->builder);
-	if (res != KSI_OK) {
-		KSI_pushError(signer->ctx, res, NULL);
+	if (signer->signature != NULL) {
+		KSI_pushError(signer->ctx, res = KSI_INVALID_STATE, "The block signer has already been closed and signed.");
 		goto cleanup;
+	}
+
+	/* Finalize the tree, unless an earlier call has done that already but failed to sign the root. */
+	if (signer->builder->rootNode == NULL) {
+		res = KSI_TreeBuilder_close(signer->builder);
+		if (res != KSI_OK) {
+			KSI_pushError(signer->ctx, res, NULL);
+			goto cleanup;
+		}
 	}
 
 	KSI_LOG_debug(signer->ctx, "Signing the root hash value of the block signer.");
